@@ -12,7 +12,7 @@
    An output edge is (end A, end B, tags, number of the input segment it is mapped to). *)
 From Coq Require Import List QArith ZArith.
 Import ListNotations.
-From PP Require Import Model.C28 Proofs.C28 Model.C29 Proofs.C29 Proofs.C29_main.
+From PP Require Import Model.C28 Proofs.C28 Model.C29 Proofs.C29 Proofs.C29_main Proofs.C29_full.
 Open Scope Q_scope.
 
 (* Under the guard the splitting does not raise. *)
@@ -93,6 +93,45 @@ Theorem C29_guard_uses_C28_separated :
 Proof. exact sep2d_eq. Qed.
 Print Assumptions C29_guard_uses_C28_separated.
 
+(* ---------------------------------------------------------------------------------------
+   Second round: the two partial theorems above are closed. *)
+
+(* No duplicates, without side condition: no output edge has length zero and no two output
+   edges have the same pair of end points in either orientation.  (When the pipeline
+   returns its input unchanged, two geometrically equal input segments cannot be present:
+   they are collinear, so the side filter keeps the pair, their boxes overlap, and
+   segments_2d answers with at least one point.) *)
+Theorem C29_no_duplicates :
+  forall tol segs, guard tol segs = true -> forall pre out, split tol segs = Edges pre out ->
+  (forall e, In e out -> ~ peq (eA e) (eB e)) /\
+  ForallOrdPairs (fun e1 e2 => ~ same_geom e1 e2) out.
+Proof. exact no_duplicates_full_thm. Qed.
+Print Assumptions C29_no_duplicates.
+
+(* Non-crossing, full statement: any point common to two output edges (at different
+   positions of the output) is an end point of both.  Under [guard2] = [guard] plus: the two
+   scalar distance tests of the side filter answer like their exact counterparts
+   (decidable, evaluated by the tie on every case).  The proof covers what was missing:
+   completeness of the bounding-box filter and of the side filter (a rejected pair has no
+   common point other than a common end point — including the branches taken when all
+   others start/end at the main's start), pairs answered with a collinear overlap (both
+   parents receive the same split points inside the overlap, also those coming from third
+   segments, so their children there coincide and are uniquified), and the branch that
+   returns the input unchanged. *)
+Theorem C29_noncrossing :
+  forall tol segs, guard2 tol segs = true -> forall pre out, split tol segs = Edges pre out ->
+  ForallOrdPairs (fun e1 e2 => forall p,
+    on_seg p (eA e1) (eB e1) -> on_seg p (eA e2) (eB e2) ->
+    touch_ends p e1 /\ touch_ends p e2) out.
+Proof. exact nc_full. Qed.
+Print Assumptions C29_noncrossing.
+
+(* The stronger guard implies the guard of all the other theorems. *)
+Theorem C29_guard2_implies_guard :
+  forall tol segs, guard2 tol segs = true -> guard tol segs = true.
+Proof. exact guard2_guard. Qed.
+Print Assumptions C29_guard2_implies_guard.
+
 (* Non-vacuity: a crossing, a T-junction, a collinear overlap and a shared end point;
    the guard holds, 10 children before and 8 edges after uniquification; the pair (0,1)
    is a candidate answered with the single point (2,2). *)
@@ -101,13 +140,13 @@ Definition ex_segs : list seg :=
     ((1, 1), (3, 3), [5%Z]);  ((4, 4), (4, 0), [6%Z]) ].
 
 Example C29_nonvacuous :
-  guard tol8 ex_segs = true /\
+  guard tol8 ex_segs = true /\ guard2 tol8 ex_segs = true /\
   (exists pre out, split tol8 ex_segs = Edges pre out /\ length pre = 10%nat /\ length out = 8%nat) /\
   new_pts (hits tol8 ex_segs) <> [] /\
   (exists gi gj, In ((0%nat, gi), (1%nat, gj)) (cand_pairs tol8 ex_segs) /\
                  exists q, isect_of tol8 ((0%nat, gi), (1%nat, gj)) = R2Pt q /\ peq q (2, 2)).
 Proof.
-  split; [vm_compute; reflexivity|]. split; [|split].
+  split; [vm_compute; reflexivity|]. split; [vm_compute; reflexivity|]. split; [|split].
   - destruct (split tol8 ex_segs) as [pre out|e] eqn:E.
     + exists pre, out. split; [reflexivity|].
       assert (L : match split tol8 ex_segs with
